@@ -14,7 +14,7 @@ def real_transports(res):
     # the variant of each behaviour (which CallResult shape, which exception class, a value exactly at / one past the size limit)
     cases = [c + [i // 2 + res.seed, False] for i, c in enumerate(cases)]
     # ... and the same with the invocation arriving end-to-end encrypted (the replies must be, too; what cannot be encrypted is an ERROR)
-    cases += [[k, s, b, a, rp, v, True] for k in ("ws", "rs") for s in ("json", "cbor") for b in BEHS for a in (False, True) for rp in (False,)
+    cases += [[k, s, b, a, rp, v, True] for k in ("ws", "rs") for s in ("json", "cbor") for b in BEHS for a in (False, True) for rp in (False, True)
               for v in (res.seed, res.seed + 1)]
     jobs = [("invreal_drv", [], common.driver_env(fw=fwn, seed=res.seed), dict(cases=cases)) for fwn in ("tx", "aio")]
     outs = common.run_drivers_parallel(jobs)
